@@ -29,6 +29,41 @@ func runC12(c *Ctx) {
 	fRevert := P.Field(pkg + ".Flags.Revert")
 	fRevision := P.Field("snap.SideInfo.Revision")
 	sites := CallSites(di, rir)
+	// the two discards may go through one local closure (discardRevision(si)): its call sites
+	// stand for them, the revision discarded being that of the closure's argument
+	wrapArg := -1
+	if len(sites) == 0 {
+		for _, cl := range di.AnonFuncs {
+			rs := CallSites(cl, rir)
+			if len(rs) != 1 {
+				continue
+			}
+			ra := CallArgs(rs[0])
+			if len(ra) < 5 {
+				continue
+			}
+			b, f, ok := FieldLoad(ra[4])
+			if !ok || f != fRevision {
+				continue
+			}
+			for j, hp := range cl.Params {
+				if Strip(b) == ssa.Value(hp) || b == ssa.Value(hp) {
+					wrapArg = j
+				}
+			}
+			if wrapArg < 0 {
+				continue
+			}
+			for _, bb := range di.Blocks {
+				for _, in := range bb.Instrs {
+					if cc, ok := in.(ssa.CallInstruction); ok && cc.Common().StaticCallee() == cl {
+						sites = append(sites, cc)
+					}
+				}
+			}
+			c.touch(cl)
+		}
+	}
 	if len(sites) != 2 {
 		c.Rule("C12-R1", "G+L", "doInstall GC", 1)
 		c.Undecided(pkg+".doInstall#discard-sites", di.Pos(), fmt.Sprintf("expected two removeInactiveRevision call sites in doInstall (after-current loop, garbage collection), found %d", len(sites)))
@@ -70,6 +105,13 @@ func runC12(c *Ctx) {
 		for _, ic := range CallsMatching(di, inUseCall) {
 			a := ic.Common().Args
 			ra := CallArgs(gcSite)
+			if wrapArg >= 0 {
+				// discardRevision(si.Snap): the closure discards the Revision of its argument
+				if b1, f1, ok1 := FieldLoad(a[1]); len(a) == 2 && ok1 && f1 == fRevision && wrapArg < len(gcSite.Common().Args) && sameSeqElem(b1, gcSite.Common().Args[wrapArg]) {
+					okSame = true
+				}
+				continue
+			}
 			if len(a) == 2 && len(ra) >= 5 {
 				b1, f1, ok1 := FieldLoad(a[1])
 				b2, f2, ok2 := FieldLoad(ra[4])
